@@ -35,6 +35,8 @@ def expect_cell(name, row):
     if name == "V": return opt("ver"), "r"
     if name == "S": return ch("ss"), "l"
     if name == "LC": return g("age"), "r"
+    if name == "PTH":     # one upper-case hex digit per datum: tens of seconds since the last position / track / heading, mod 16
+        return "".join(" " if g(k) in ("-", None) else "%X" % ((int(g(k)) // 10) % 16) for k in ("posage", "trkage", "hdgage")), "l"
     if name == "W":
         tc, ca = g("cat").split("/")
         return ({"1": "L", "2": "S", "3": "M", "4": "H", "5": "J", "7": "R"}.get(ca, " ") if tc == "4" else " "), "l"
@@ -64,7 +66,8 @@ class C14(PropBase):
             for _ in range(reps):
                 addrs, pre, body = RC.rich_rows(rng, 12)
                 ops = ["reset", gen.cfg_op(relaxed=True, use_update=bool(mask & 1), groups=groups if groups else "x", order="", delete_after=600,
-                                             observer="52.66,-8.62"), "case 0"] + gen.seg(pre) + gen.seg(body) + ["adv 12500", "dump", "render"]
+                                             observer="52.66,-8.62"), "case 0"] + gen.seg(pre) + gen.seg(body) + [f"adv {rng.choice([0, 87000, 99500, 105000, 131000, 147000, 161000, 325000])}"] \
+                    + gen.seg([F.df11(5, a, 0) for a in addrs]) + ["adv 12500", "dump", "render"]    # position / track / heading ages 12 .. 337 s, last contact 12 s
                 impl, so, model = run.execute(ops, model=driver_ok)
                 rep.evaluations += len(addrs); rep.traces += 1
                 self.corr(rep, impl, model, {"groups": groups})
